@@ -17,6 +17,7 @@ import (
 	"os"
 	"regexp"
 	"runtime"
+	"runtime/debug"
 	"sort"
 	"strings"
 	"sync"
@@ -146,8 +147,21 @@ func barrierRun(k int, f func(i int)) (panics []string) {
 			defer wg.Done()
 			defer func() {
 				if r := recover(); r != nil {
+					// message + the repository frames of the panicking goroutine
+					frames := []string{}
+					for _, l := range strings.Split(string(debug.Stack()), "\n") {
+						if strings.HasPrefix(l, "tunnox-core/internal/") || strings.HasPrefix(l, "main.(") {
+							if j := strings.LastIndex(l, "("); j > 0 {
+								l = l[:j]
+							}
+							frames = append(frames, l)
+						}
+					}
+					if len(frames) > 6 {
+						frames = frames[:6]
+					}
 					mu.Lock()
-					panics = append(panics, fmt.Sprint(r))
+					panics = append(panics, fmt.Sprint(r)+" @ "+strings.Join(frames, " <- "))
 					mu.Unlock()
 				}
 			}()
@@ -1664,7 +1678,8 @@ func runBridgeStartRace(c caseIn) out {
 		tb.Close()
 		if len(pan) > 0 {
 			cancel()
-			return fail(o, "bridge-panic", fmt.Sprintf("trial %d: Bridge.Close racing with Start (target attached before=%v): %s", trial, c.Started, pan[0]))
+			// a crash here is the visible end of the unsynchronised field access between Start and Close (torn interface read)
+			return fail(o, "bridge-start-close-data-race", fmt.Sprintf("trial %d: PANIC with Bridge.Close racing with the wake-up of Start (target attached before=%v): %s", trial, c.Started, pan[0]))
 		}
 		select {
 		case <-startDone:
